@@ -67,6 +67,7 @@ PINNED = {
     "add.transitions": "(mine + (theirs + 1))",
     "add.order": "(if (mine = theirs) then (some 0) else mine)",
     "add.merges": ["intersection-summed", "set-union-sorted-cut"],
+    "add.sketch_order": "dedupThenCut",
     "add.mfv_one_sided": "(if (theirsEmpty = true) then MfvPick.mine else (if (mineEmpty = true) then MfvPick.theirs else MfvPick.nothing))",
     "text.cut_unit": "chars",
 }
@@ -93,7 +94,7 @@ def pinned_json():
         "profexpr.hist.keep": P["hist.keep"], "profexpr.hist.edges": P["hist.edges"],
         "profexpr.entry.recomputes": P["entry.recomputes"],
         "profexpr.add.transitions": P["add.transitions"], "profexpr.add.order": P["add.order"],
-        "profexpr.add.merges": P["add.merges"],
+        "profexpr.add.merges": P["add.merges"], "profexpr.add.sketch_order": P["add.sketch_order"],
         "profexpr.add.mfv_one_sided": P["add.mfv_one_sided"], "profexpr.text.cut_unit": P["text.cut_unit"],
     }
 
@@ -618,16 +619,66 @@ def generate(o, _force_pinned=False):
                "0": "(some 0)", "1": "(some 1)", "-1": "(some (-1))", "None": "none"}
         return to_lean(a[0][1], env)
 
+    def sketch_order():
+        """The order of the two steps of the sketch merge (the branch under `if self.kmv_hashes and profile.kmv_hashes:`):
+        'dedupThenCut' — duplicates of hashes are removed and then the KVM_SIZE smallest are kept
+        (`sorted(set(a + b))[:KVM_SIZE]`, `heapq.nsmallest(KVM_SIZE, set(a + b))`); 'cutThenDedup' — the KVM_SIZE smallest
+        entries of the concatenation are kept and then duplicates are removed (`sorted(set(heapq.nsmallest(KVM_SIZE, a + b)))`,
+        `sorted(set(sorted(a + b)[:KVM_SIZE]))`).  Local names assigned once in the branch are read through.  Anything else
+        is not recognised."""
+        fn = add_fn()
+        top = [st for st in fn.body if isinstance(st, ast.If)
+               and ast.unparse(st.test) in ("self.kmv_hashes and profile.kmv_hashes", "profile.kmv_hashes and self.kmv_hashes")]
+        if len(top) != 1:
+            raise KeyError("if self.kmv_hashes and profile.kmv_hashes")
+        body = [st for st in top[0].body if not isinstance(st, ast.Pass) and not (isinstance(st, ast.Expr) and isinstance(st.value, ast.Constant))]
+        local = {}
+        final = None
+        for st in body:
+            if not (isinstance(st, ast.Assign) and len(st.targets) == 1):
+                raise KeyError("statement in the sketch branch: " + ast.unparse(st)[:40])
+            tg = st.targets[0]
+
+            class Sub(ast.NodeTransformer):
+                def visit_Name(self, n):
+                    return local.get(n.id, n) if isinstance(n.ctx, ast.Load) else n
+
+            import copy
+
+            value = ast.fix_missing_locations(Sub().visit(copy.deepcopy(st.value)))
+            if isinstance(tg, ast.Name):
+                if tg.id in local or final is not None:
+                    raise KeyError("a local of the sketch branch assigned twice")
+                local[tg.id] = value
+            elif ast.unparse(tg) == "new_profile.kmv_hashes" and final is None:
+                final = value
+            else:
+                raise KeyError("assignment in the sketch branch: " + ast.unparse(tg)[:40])
+        if final is None:
+            raise KeyError("new_profile.kmv_hashes = ...")
+        txt = ast.unparse(final)
+        for x in ("self.kmv_hashes + profile.kmv_hashes", "profile.kmv_hashes + self.kmv_hashes",
+                  "[*self.kmv_hashes, *profile.kmv_hashes]", "[*profile.kmv_hashes, *self.kmv_hashes]"):
+            txt = txt.replace(x, "X")
+        txt = txt.replace("list(X)", "X").replace("frozenset(", "set(")
+        if txt in ("sorted(set(X))[:KVM_SIZE]", "heapq.nsmallest(KVM_SIZE, set(X))", "sorted(heapq.nsmallest(KVM_SIZE, set(X)))",
+                   "sorted(list(set(X)))[:KVM_SIZE]", "list(sorted(set(X)))[:KVM_SIZE]", "sorted(set(X))[0:KVM_SIZE]"):
+            return "dedupThenCut"
+        if txt in ("sorted(set(heapq.nsmallest(KVM_SIZE, X)))", "sorted(set(sorted(X)[:KVM_SIZE]))", "sorted(set(sorted(X)[0:KVM_SIZE]))",
+                   "sorted(list(set(heapq.nsmallest(KVM_SIZE, X))))", "list(sorted(set(heapq.nsmallest(KVM_SIZE, X))))"):
+            return "cutThenDedup"
+        raise KeyError("sketch merge: " + txt[:60])
+
     def add_merges():
-        """Shapes of the two merges the model writes by hand; anything else is not recognised."""
+        """Shapes of the two merges the model writes by hand; anything else is not recognised.  (The sketch merge: a sorted
+        set of both sides' hashes cut to KVM_SIZE; the order of 'set' and 'cut' is `sketch_order` above.)"""
         fn = add_fn()
         txt = ast.unparse(fn)
         mf = ("combined_map[value] = morsel1_map[value] + morsel2_map[value]" in txt and "if value in morsel2_map" in txt
               and "for value in morsel1_map" in txt)
-        km = "new_profile.kmv_hashes = sorted(set(self.kmv_hashes + profile.kmv_hashes))[:KVM_SIZE]" in txt
-        if not (mf and km):
-            raise KeyError("most-frequent / sketch merge")
-        return ["intersection-summed", "set-union-sorted-cut"]
+        if not mf:
+            raise KeyError("most-frequent merge")
+        return ["intersection-summed", "set-union-sorted-cut" if sketch_order() == "dedupThenCut" else "sorted-cut-set"]
 
     def mfv_one_sided():
         """The `elif` chain under `if self.most_frequent_values and profile.most_frequent_values:` — which list the sum gets when
@@ -720,6 +771,7 @@ def generate(o, _force_pinned=False):
     v["add_tr"] = o.item("profexpr.add.transitions", add_transitions, PINNED["add.transitions"])
     v["add_or"] = o.item("profexpr.add.order", add_order, PINNED["add.order"])
     o.item("profexpr.add.merges", add_merges, PINNED["add.merges"])
+    sko = o.item("profexpr.add.sketch_order", sketch_order, PINNED["add.sketch_order"])
     v["mfv_one_sided"] = o.item("profexpr.add.mfv_one_sided", mfv_one_sided, PINNED["add.mfv_one_sided"])
     tcu = o.item("profexpr.text.cut_unit", text_cut_unit, PINNED["text.cut_unit"])
 
@@ -806,6 +858,9 @@ def generate(o, _force_pinned=False):
     t += ("/-- …which most-frequent list the sum gets when not both sides list values (`mineEmpty` / `theirsEmpty`: that side holds no "
           "value, `count == missing`; `mineLists` / `theirsLists`: its list is not empty) -/\n")
     t += "def addMfvOneSided (mineEmpty theirsEmpty mineLists theirsLists : Bool) : MfvPick := %s\n" % v["mfv_one_sided"]
+    t += ("/-- ColumnProfile.__add__, the merge of the two sketches: duplicates of hashes are removed *before* the cut to `KVM_SIZE` "
+          "(`sorted(set(a + b))[:KVM_SIZE]`) or after it -/\n")
+    t += "def sumSketchOrder : SumSketchOrder := .%s\n" % sko
     t += "end Gen.ProfileExpr\n"
     if _force_pinned:
         del o.item  # back to the class method
